@@ -163,11 +163,13 @@ fn gen(seed: u64, tier: Tier) -> Case {
         let lvl = *r.pick(&[20u64, 100, 300]);
         Some((r.below(lvl + 1), r.below(lvl + 1), r.below(lvl + 1), r.below(lvl + 1), r.below(2 * lvl + 1), r.next()))
     };
-    let n = 2 + r.below(if tier == Tier::Thorough { 20 } else { 10 });
+    let n = 2 + r.below(if tier == Tier::Thorough { 20 } else { 10 }) + if r.chance(1, 8) { 12 } else { 0 };
     let mut ops = vec![SOp::LoadOriginal { node: 0, hex: r.chance(1, 2) }];
     for _ in 0..n {
         let node = r.below(NODES as u64) as u8;
-        let key = r.below(6) as u8;
+        // (now and then a wider circle of co-signers: collections that change their ways beyond a handful of elements)
+        let circle = if r.chance(1, 3) { 14 } else { 6 };
+        let key = r.below(circle) as u8;
         ops.push(match r.below(15) {
             0 => SOp::LoadOriginal { node, hex: r.chance(1, 2) },
             1 => {
